@@ -70,6 +70,18 @@ def generate():
     mark_line = [c.lineno for c in ast.walk(co) if isinstance(c, ast.Call) and ast.unparse(c) == marker_frag]
     if len(comp_line) != 1 or len(mark_line) != 1 or mark_line[0] < comp_line[0]:
         raise TranslationError("_compile_objects: the ready marker is not created after the compile")
+    # the publication of the marker is the LAST thing the build does: it is the last statement of the try body that
+    # holds the compile (nothing that can raise comes between "the marker exists" and the return), and it is not in a
+    # handler / finally (it happens only when the compile returned)
+    if atomic:
+        holder = [n for n in ast.walk(co) if isinstance(n, ast.Try)
+                  and any(isinstance(c, ast.Call) and ast.unparse(c.func) == "ffibuilder.compile" for b in n.body for c in ast.walk(b))]
+        if len(holder) != 1 or not holder[0].body or ast.unparse(holder[0].body[-1]) != marker_frag:
+            raise TranslationError("_compile_objects: the publication of the ready marker is not the last statement of the try block around the compile "
+                                   "(a failure after the marker exists, or a marker published although the compile failed, is not in the model)")
+        after = [ast.unparse(x) for x in co.body[co.body.index(holder[0]) + 1:]] if holder[0] in co.body else None
+        if after != ["return code_body"]:
+            raise TranslationError(f"_compile_objects: statements after the build block of unrecognised shape: {after}")
     for name in ("compile_forms", "compile_expressions"):
         s = ast.unparse(fns[name])
         if "os.replace(c_filename, c_filename.with_suffix('.c.failed'))" not in s or "except Exception as e" not in s:
